@@ -236,6 +236,24 @@ func (prog Progress) focusedTransform(n datamodel.Node, na datamodel.NodeAssembl
 			return err
 		}
 		prog.Path = at.AppendSegment(seg)
+		if p2.Len() == 0 {
+			// The last path segment needs to know if the TransformFn returns nil _before_ the AssembleKey step:
+			//  nil means there is nothing to put into the freshly created parent.
+			n2, err := fn(prog, nil)
+			if err != nil {
+				return err
+			}
+			if n2 == nil {
+				return ma.Finish()
+			}
+			if err := ma.AssembleKey().AssignString(seg.String()); err != nil {
+				return err
+			}
+			if err := ma.AssembleValue().AssignNode(n2); err != nil {
+				return err
+			}
+			return ma.Finish()
+		}
 		if err := ma.AssembleKey().AssignString(seg.String()); err != nil {
 			return err
 		}
@@ -324,6 +342,10 @@ func (prog Progress) focusedTransform(n datamodel.Node, na datamodel.NodeAssembl
 		if p.Len() > 1 && !createParents {
 			return fmt.Errorf("transform: parent position at %q did not exist (and createParents was false)", prog.Path)
 		}
+		if end && n2 == nil {
+			// The TransformFn asked for the removal of a key that isn't there: nothing to do.
+			return ma.Finish()
+		}
 		if err := ma.AssembleKey().AssignString(seg.String()); err != nil {
 			return err
 		}
@@ -356,10 +378,25 @@ func (prog Progress) focusedTransform(n datamodel.Node, na datamodel.NodeAssembl
 			}
 			if ti == i {
 				prog.Path = prog.Path.AppendSegment(seg)
+				replaced = true
+				if p2.Len() == 0 {
+					// The last path segment gets a different case because it may need to handle deletion:
+					//  we need to know if the TransformFn returns nil _before_ we do the AssembleValue step.
+					n2, err := fn(prog, v)
+					if err != nil {
+						return err
+					}
+					if n2 == nil {
+						continue // replace with nil means delete: don't copy the element.
+					}
+					if err := la.AssembleValue().AssignNode(n2); err != nil {
+						return err
+					}
+					continue
+				}
 				if err := prog.focusedTransform(v, la.AssembleValue(), p2, fn, createParents); err != nil {
 					return err
 				}
-				replaced = true
 			} else {
 				if err := la.AssembleValue().AssignNode(v); err != nil {
 					return err
@@ -375,6 +412,19 @@ func (prog Progress) focusedTransform(n datamodel.Node, na datamodel.NodeAssembl
 			return fmt.Errorf("transform: cannot navigate path segment %q at %q because it is beyond the list bounds", seg, prog.Path)
 		}
 		prog.Path = prog.Path.AppendSegment(datamodel.PathSegmentOfInt(n.Length()))
+		if p2.Len() == 0 {
+			n2, err := fn(prog, nil)
+			if err != nil {
+				return err
+			}
+			if n2 == nil {
+				return la.Finish() // nothing to append.
+			}
+			if err := la.AssembleValue().AssignNode(n2); err != nil {
+				return err
+			}
+			return la.Finish()
+		}
 		if err := prog.focusedTransform(nil, la.AssembleValue(), p2, fn, createParents); err != nil {
 			return err
 		}
